@@ -115,7 +115,7 @@ def runOp (isF : Bool) (cls : String) (ps : List (Option α)) (xs : List α) : O
     .ok ([], xs.map (if isF then Reciprocal.forward p else Reciprocal.jacobian p))
   | "Sinh", [some nu, some scale] =>
     let p : Sinh.Params α := ⟨nu, scale⟩
-    .ok ([], xs.map (if isF then Sinh.forward p else Sinh.jacobian p))
+    .ok ([], xs.map (if isF then Sinh.forward p else C02.Sinh.jacobianH p))
   | "Manly", [some lam, xmax] =>
     let s : Manly.State α := ⟨lam, xmax⟩
     match (if isF then Manly.State.forwardArr s xs else Manly.State.jacobianArr s xs) with
